@@ -36,6 +36,15 @@ Theorem not_found_means_no_match disk lits :
 Proof. exact (ModFSProofs.not_found_means_no_match disk lits). Qed.
 Print Assumptions not_found_means_no_match.
 
+(* and when exactly one file of a well-formed disk carries the literals, the search answers Found with that file (neither missing nor ambiguous): no file is reached along two routes *)
+Theorem single_match_is_found disk lits n nm bytes :
+  files_wf (disk_files disk) -> nth_error disk n = Some (nm, bytes) ->
+  map (fun c => name_lit (norm_name c)) (comps nm) = map Some lits ->
+  (forall n' nm' bytes', nth_error disk n' = Some (nm', bytes') -> map (fun c => name_lit (norm_name c)) (comps nm') = map Some lits -> n' = n) ->
+  search lits (tree_of_disk disk) = Found (map norm_name (comps nm)) (N.of_nat n).
+Proof. exact (ModFSProofs.single_match_is_found disk lits n nm bytes). Qed.
+Print Assumptions single_match_is_found.
+
 (* the whole built-in on literal words (not the built-in marker 5): nothing is evaluated, the tree is searched, the file found goes to the same loader as a path string *)
 Theorem import_by_literals rec sp argv ip h w h1 l0 lits p id nm bytes :
   runG rec (option (list Z)) ip h w (peek_lits argv) = DoneG h1 w (inl (Some (l0 :: lits))) 0 -> argv <> [] -> l0 <> 5%Z ->
